@@ -261,7 +261,6 @@ def apply_and_check(w, ref, cfg, ev, log):
     is_mouse = isinstance(ev, (list, tuple))
     is_click = is_mouse and ev[0] == "click"
     printable = (not is_mouse) and len(ev) == 1 and ord(ev) >= 32
-    displayable = ref.displayable()
 
     # ---- reference step
     if is_click:
@@ -414,7 +413,8 @@ def evaluate(cfg, text0, pos0, path, ev, ref=None):
             ref = copy.copy(ref)
             ref.text = list(ref.text)
     except Exception as e:  # noqa: BLE001
-        return {"no-exception": (False, f"reaching the state raised {type(e).__name__}: {e}"[:300], True)}, False, {}, None
+        what = "constructing and first rendering the initial state" if not path else "replaying the path to the state"
+        return {"no-exception": (False, f"{what} raised {type(e).__name__}: {e}"[:300], True)}, False, {}, None
     if ev is None:
         v = {}
         idx = _index_of_offset(cfg, w.edit_text, w.edit_pos)
